@@ -123,3 +123,40 @@ Theorem by_name_keys_agree :
       (map p_name ps = [b#"a_b"; b#"aB"] \/ keys_disjoint (map snd kps)))
     (item_params a) ks) family family_keys.
 Proof. apply family_keys_ok_sound. vm_compute. reflexivity. Qed.
+
+(* ---------- which parameters the macro takes for optional (helpers::is_option, read by the translator) ---------- *)
+
+(* Gen.MacroApiGen.family_options: per parameter (path segments of the declared type as spelled, the decision of the rule
+   the translator read from helpers.rs).  One row: the decision is the p_opt of the description (so it is what the model's
+   positional decoder uses), and a standard spelling of Option is decided optional. *)
+Definition opt_row_ok (p : param jty) (r : list bytes * bool) : bool :=
+  Bool.eqb (snd r) (p_opt p) && implb (is_std_option (fst r)) (p_opt p).
+
+Definition family_options_ok (fam : list japi) (rows : list (list (list (list bytes * bool)))) : bool :=
+  forall2b (fun a rs => forall2b (forall2b opt_row_ok) (item_params a) rs) fam rows.
+
+Lemma opt_row_ok_sound p r : opt_row_ok p r = true -> snd r = p_opt p /\ (is_std_option (fst r) = true -> p_opt p = true).
+Proof.
+  unfold opt_row_ok. intro H. apply andb_true_iff in H as [H1 H2]. apply Bool.eqb_prop in H1. split; [exact H1|].
+  intro E. rewrite E in H2. exact H2.
+Qed.
+
+Lemma family_options_ok_sound fam rows : family_options_ok fam rows = true ->
+  Forall2 (fun (a : japi) (rs : list (list (list bytes * bool))) =>
+    Forall2 (fun (ps : list (param jty)) (r : list (list bytes * bool)) =>
+      Forall2 (fun (p : param jty) (x : list bytes * bool) => snd x = p_opt p /\ (is_std_option (fst x) = true -> p_opt p = true)) ps r)
+    (item_params a) rs) fam rows.
+Proof.
+  intro H. apply (forall2b_sound _ _ _ _ (fun a rs _ E => E)) in H. revert H. apply Forall2_weaken.
+  intros a rs E. apply (forall2b_sound _ _ _ _ (fun ps r _ E' => E')) in E. revert E. apply Forall2_weaken.
+  intros ps r E. apply (forall2b_sound opt_row_ok); [|exact E]. intros p x _. apply opt_row_ok_sound.
+Qed.
+
+(* by computation on the generated constants: a rule in helpers.rs that forgets one of the spellings used in the family
+   (e.g. a whitelist without `core::option::Option`) makes family_options_ok false and this stops compiling *)
+Theorem option_spellings_are_optional :
+  Forall2 (fun (a : japi) (rs : list (list (list bytes * bool))) =>
+    Forall2 (fun (ps : list (param jty)) (r : list (list bytes * bool)) =>
+      Forall2 (fun (p : param jty) (x : list bytes * bool) => snd x = p_opt p /\ (is_std_option (fst x) = true -> p_opt p = true)) ps r)
+    (item_params a) rs) family family_options.
+Proof. apply family_options_ok_sound. vm_compute. reflexivity. Qed.
